@@ -9,26 +9,26 @@ from pyvc.api import schema
 schema({
     "Block": {"_start_line_in_file": "any", "_raw": "any", "_parser_metadata": "dict:str:any"},
     "String": {"_key": "str", "_value": "any"},
-    "Preamble": {"_value": "any"},
-    "ExplicitComment": {"_comment": "any"},
-    "ImplicitComment": {"_comment": "any"},
+    "Preamble": {"_value": "str"},
+    "ExplicitComment": {"_comment": "str"},
+    "ImplicitComment": {"_comment": "str"},
     "Field": {"_start_line": "any", "_key": "str", "_value": "any"},
-    "Entry": {"_entry_type": "any", "_key": "str", "_fields": "list:ref:Field"},
+    "Entry": {"_entry_type": "str", "_key": "str", "_fields": "list:ref:Field"},
     "ParsingFailedBlock": {"_error": "any", "_ignore_error_block": "optref:ref:Block"},
     "DuplicateBlockKeyBlock": {"_key": "str", "_previous_block": "ref:Block"},
     "DuplicateFieldKeyBlock": {"_duplicate_keys": "any"},
     "Library": {"_blocks": "list:ref:Block", "_entries_by_key": "dict:str:ref:Entry", "_strings_by_key": "dict:str:ref:String"},
     "BibtexFormat": {"_indent": "str", "_align_field_values": "any", "_block_separator": "str",
-                     "_trailing_comma": "any", "_parsing_failed_comment": "str"},
-    "Middleware": {"_allow_inplace_modification": "any", "_allow_parallel_execution": "any"},
-    "AddEnclosingMiddleware": {"_default_enclosing": "str", "_reuse_previous_enclosing": "any", "_enclose_integers": "any"},
+                     "_trailing_comma": "bool", "_parsing_failed_comment": "str"},
+    "Middleware": {"_allow_inplace_modification": "bool", "_allow_parallel_execution": "bool"},
+    "AddEnclosingMiddleware": {"_default_enclosing": "str", "_reuse_previous_enclosing": "bool", "_enclose_integers": "bool"},
     "BlockAbortedException": {"abort_reason": "any", "end_index": "any"},
     "ParserStateException": {"message": "any"},
     "RegexMismatchException": {"first_match": "any", "expected_match": "any", "second_match": "any"},
     "NameParts": {"first": "list:str", "von": "list:str", "last": "list:str", "jr": "list:str"},
     "_BlockJunk": {"sort_key": "any", "blocks": "list:ref:Block"},
-    "SortBlocksByTypeAndKeyMiddleware": {"_block_type_order": "any", "_preserve_comments_on_top": "any"},
-    "SortFieldsCustomMiddleware": {"_case_sensitive": "any", "_order": "list:str"},
+    "SortBlocksByTypeAndKeyMiddleware": {"_block_type_order": "any", "_preserve_comments_on_top": "bool"},
+    "SortFieldsCustomMiddleware": {"_case_sensitive": "bool", "_order": "list:str"},
     "_NameTransformerMiddleware": {"_name_fields": "any"},
     "MergeNameParts": {"style": "any"},
     "Splitter": {"bibstr": "str", "_markiter": "any", "_unaccepted_mark": "match", "_current_line": "int",
